@@ -8,6 +8,11 @@ the unique-path (chain) lemma.
 namespace GlueVerif.Joins.Lemmas
 open GlueVerif.Joins
 
+theorem implJoinMask_good : JMGood Impl.joinMask := by
+  intro kl kr n1 n2
+  rw [implJoinMask_eq_jmOf]
+  exact jmOf_good _ kl kr n1 n2
+
 /-! ### membership helpers -/
 
 theorem mem_applyView {α : Type} (v : View) (xs : List α) (x : α) (h : x ∈ applyView v xs) : x ∈ xs := by
